@@ -28,6 +28,7 @@ def new_lineage():
     double can stand for different exact values in unrelated expressions)"""
     X.EXACT.clear()
     EPISODE["folded"] = False
+    EPISODE["underflow"] = False
 
 
 def rule_classes():
@@ -358,6 +359,19 @@ def _values(rec, snap, arm, key_case, changed):
     # '10 * 0.1' and 1.0 from folding that constant cubed), so the exactification map is a
     # best effort, not an invariant
     tol = n_new > 0 or bool(X.EXACT) or EPISODE["folded"]
+    if n_new and label == "CA" and not S.variables(snap["node_shadow"]):
+        # a fold whose exact result lies in the underflow region of a double (0.0000001^63 is 1e-441) legitimately
+        # comes out as 0.0 or a denormal: no verdict about such a step
+        try:
+            tiny = X.ev(snap["node_shadow"], {})
+            if not tiny.approx and 0 < abs(tiny.v) < X.Fraction(1, 10 ** 290):
+                rec.skip("value: fold in the underflow region")
+                rec.arm("value:underflow-fold-skip")
+                EPISODE["folded"] = True
+                EPISODE["underflow"] = True
+                return
+        except Exception:
+            pass
     if n_new == 1 and n_res == 0 and label == "CA":
         off = X.fold_off(snap["node_shadow"], before, after)
         if off is not None and _fold_off(rec, snap, arm, off):
